@@ -395,7 +395,8 @@ def run_reader(env: ReadEnv, ds, iface: str, split: str, opts: dict, k=None,
                seed: int = 0, policy: str = "random", policy_param: int = 0,
                counter=None, choices=None, max_steps: int = 200000,
                abandon_without_close: bool = False,
-               line_prob: float = 0.0, pause: float = 0.0) -> ReaderRun:
+               line_prob: float = 0.0, pause: float = 0.0,
+               consumer_works: bool = False) -> ReaderRun:
     """Consume (the first k elements of) one interface under the simulator.
     Never raises for exceptions coming out of sedpack: they are recorded."""
     attrs = env.st["attrs"]
@@ -412,6 +413,13 @@ def run_reader(env: ReadEnv, ds, iface: str, split: str, opts: dict, k=None,
                     break
                 rr.items.append(dsgen.canon(e, attrs))
                 rr.opens_at_yield.append(len(env.opens) - base_opens)
+                if consumer_works:
+                    # the consumer spends time on the example: a scheduling
+                    # point at which readers may run ahead
+                    cur = S.current()
+                    if cur is not None:
+                        for _ in range(3):
+                            cur.yield_("consume")
         finally:
             close = getattr(it, "close", None)
             if close is not None and not abandon_without_close:
